@@ -30,6 +30,11 @@ package main
 //  K8  dc3v2 voxels tile the box: Min + cells·cellSize ≡ Max, starts advance by cellSize
 //  K9  a child skipped on a distance evaluation: evaluated at the centre of its world box,
 //      threshold not below that box's half diagonal (refuted on lattice configurations)
+//  K10 nextPowerOfTwo(v) is the smallest power of two >= v (constant evaluation of the function
+//      for v = 1..1100 and around every power of two up to 2^20): the octree's halving only
+//      tiles a cube whose side is a power of two
+//  K11 warn-once blocks (if !flag { log; flag = true }) contain nothing but the message and the
+//      flag: what is returned or emitted must not depend on whether the warning was already given
 //
 // Not decided: QEF placement, distances, the acknowledged boundary holes.
 
@@ -40,6 +45,7 @@ import (
 	"math"
 	"math/big"
 	"regexp"
+	"sort"
 	"strings"
 
 	"golang.org/x/tools/go/ssa"
@@ -342,6 +348,8 @@ func checkC19(ctx *Ctx, r *Report, tier string) {
 	checkDCV2(ctx, r)
 	checkVoxelTiling(ctx, r)
 	checkDistanceCulling(ctx, r)
+	checkPowerOfTwo(ctx, r)
+	checkWarnOnceBlocks(ctx, r)
 	n := 0
 	for _, f := range axisLint(ctx, "render/dc") {
 		n++
@@ -1326,4 +1334,182 @@ func checkDistanceCulling(ctx *Ctx, r *Report) {
 	}
 	r.Counts["culling_configurations"] = nCfg
 	r.floor("K9", 1)
+}
+
+// ---------------------------------------------------------------- K10 / K11
+
+func checkPowerOfTwo(ctx *Ctx, r *Report) {
+	fn := ctx.ssaFunc("render/dc", "nextPowerOfTwo")
+	if fn == nil || len(fn.Params) != 1 {
+		r.undecided("K10", "nextPowerOfTwo", 0, "not found")
+		return
+	}
+	vals := map[int64]bool{}
+	for v := int64(1); v <= 1100; v++ {
+		vals[v] = true
+	}
+	for k := uint(1); k <= 20; k++ {
+		for d := int64(-2); d <= 2; d++ {
+			if v := int64(1)<<k + d; v >= 1 {
+				vals[v] = true
+			}
+		}
+	}
+	var vs []int64
+	for v := range vals {
+		vs = append(vs, v)
+	}
+	sort.Slice(vs, func(i, j int) bool { return vs[i] < vs[j] })
+	bad, n := "", 0
+	pn := paramName(fn, 0)
+	for _, v := range vs {
+		ev := newEval(ctx)
+		res, _ := ev.evalRootWith(fn, map[string]int64{pn: v})
+		t, _ := res.(*Term)
+		want := int64(1)
+		for want < v {
+			want <<= 1
+		}
+		n++
+		if t == nil || !t.IsConst() || t.C.Cmp(big.NewRat(want, 1)) != 0 {
+			g := "?"
+			if t != nil {
+				g = shortKey(t.Key(), 40)
+			}
+			if len(bad) < 200 {
+				bad += fmt.Sprintf(" nextPowerOfTwo(%d) = %s, expected %d;", v, g, want)
+			}
+		}
+	}
+	r.Counts["power_of_two_arguments"] = n
+	r.check("K10", "nextPowerOfTwo|smallest-power-of-two-not-below-the-argument", fn.Pos(), bad == "", fmt.Sprintf("%d arguments evaluated on the function's own closed form;%s", n, bad))
+	r.floor("K10", 1)
+}
+
+// checkWarnOnceBlocks: the region controlled by `if !recv.flag` that also sets recv.flag = true.
+func checkWarnOnceBlocks(ctx *Ctx, r *Report) {
+	fx := newFxEngine(ctx)
+	n := 0
+	for _, fn := range ctx.srcFuncs("render/dc") {
+		if len(fn.Blocks) == 0 {
+			continue
+		}
+		fn := fn
+		k := 0
+		for _, b := range fn.Blocks {
+			iff, ok := b.Instrs[len(b.Instrs)-1].(*ssa.If)
+			if !ok {
+				continue
+			}
+			// cond: !load(field) (true branch) or load(field) (false branch)
+			cond := iff.Cond
+			target := b.Succs[1]
+			if u, ok := cond.(*ssa.UnOp); ok && u.Op == token.NOT {
+				cond = u.X
+				target = b.Succs[0]
+			}
+			ld, ok := cond.(*ssa.UnOp)
+			if !ok || ld.Op != token.MUL {
+				continue
+			}
+			fa, ok := ld.X.(*ssa.FieldAddr)
+			if !ok {
+				continue
+			}
+			// the region: blocks dominated by the branch target
+			setsFlag := false
+			var region []*ssa.BasicBlock
+			for _, x := range fn.Blocks {
+				if target.Dominates(x) && len(target.Preds) == 1 {
+					region = append(region, x)
+				}
+			}
+			for _, x := range region {
+				for _, ins := range x.Instrs {
+					if st, ok := ins.(*ssa.Store); ok {
+						if fa2, ok := st.Addr.(*ssa.FieldAddr); ok && fa2.X == fa.X && fa2.Field == fa.Field {
+							if c, ok := st.Val.(*ssa.Const); ok && c.Value != nil && c.Value.String() == "true" {
+								setsFlag = true
+							}
+						}
+					}
+				}
+			}
+			if !setsFlag {
+				continue
+			}
+			n++
+			k++
+			bad := ""
+			for _, x := range region {
+				for _, ins := range x.Instrs {
+					switch y := ins.(type) {
+					case *ssa.Return:
+						bad += " a return inside the block (later calls take the other path);"
+					case *ssa.Store:
+						if fa2, ok := y.Addr.(*ssa.FieldAddr); ok && fa2.X == fa.X && fa2.Field == fa.Field {
+							continue
+						}
+						if ia, ok := y.Addr.(*ssa.IndexAddr); ok {
+							if _, isAlloc := ia.X.(*ssa.Alloc); isAlloc {
+								continue // the variadic argument array of the log call
+							}
+						}
+						bad += " a store other than the flag;"
+					case *ssa.Call:
+						if f := y.Call.StaticCallee(); f != nil && f.Pkg != nil {
+							switch f.Pkg.Pkg.Path() {
+							case "log", "fmt":
+								continue
+							}
+							if inModule(f) {
+								// a pure helper that formats an operand of the message
+								pure := true
+								for _, w := range fx.summarize(f).writes {
+									if w.root.kind != "fresh" {
+										pure = false
+									}
+								}
+								if pure {
+									continue
+								}
+							}
+						}
+						bad += " a call other than logging;"
+					case *ssa.Send, *ssa.Go, *ssa.Defer, *ssa.MapUpdate, *ssa.Panic:
+						bad += " an effect other than logging;"
+					}
+				}
+			}
+			// values defined in the region must not be used outside it
+			for _, x := range region {
+				for _, ins := range x.Instrs {
+					v, ok := ins.(ssa.Value)
+					if !ok || v.Referrers() == nil {
+						continue
+					}
+					for _, ref := range *v.Referrers() {
+						in := false
+						for _, y := range region {
+							if ref.Block() == y {
+								in = true
+							}
+						}
+						if !in {
+							bad += " a value computed in the block is used after it;"
+						}
+					}
+				}
+			}
+			wpos := fa.Pos()
+			if !wpos.IsValid() {
+				wpos = fn.Pos()
+			}
+			r.check("K11", fmt.Sprintf("%s|warn-once#%d|only-logs-and-sets-its-flag", shortFn(fn), k), wpos, bad == "", "the block runs once per renderer value: anything else in it makes the first occurrence behave differently from all later ones;"+bad)
+		}
+	}
+	if n == 0 {
+		r.check("K11", "render/dc|no-warn-once-blocks", 0, true, "no warn-once blocks")
+	}
+	r.floor("K11", 1)
 }
